@@ -112,7 +112,12 @@ func gen(rng *rand.Rand, tier core.Tier, emit core.Emit) {
 		if rng.Intn(2) == 0 {
 			clients = append(clients, fmt.Sprintf("filter|%d|%d|z|z|z|z", []int{0, 2, 4, 64}[rng.Intn(4)], []int{0, 0, 16, 128}[rng.Intn(4)]))
 		}
-		emit("sched", join(init), strings.Join(clients, ","), strings.Join(schedule(rng, len(clients)), ","))
+		// every third case: the operations are goroutines of ONE component (shared lock manager and connection pool)
+		op := "sched"
+		if c%3 == 2 {
+			op = "sched1"
+		}
+		emit(op, join(init), strings.Join(clients, ","), strings.Join(schedule(rng, len(clients)), ","))
 	}
 }
 
@@ -134,7 +139,43 @@ func join(xs []string) string {
 // others act (possibly to completion), drop lease expiries and clock ticks in between.
 func schedule(rng *rand.Rand, n int) []string {
 	var ev []string
-	switch rng.Intn(3) {
+	switch rng.Intn(4) {
+	case 3: // overlap: A takes the lock and stalls, the lease runs out, B gets as far as its read, A resumes up to its
+		// commit, B commits — both inside the critical section at once (setnx watch get hget exec unwatch | watch get del unwatch)
+		a, b := rng.Intn(n), rng.Intn(n)
+		if a == b {
+			b = (a + 1) % n
+		}
+		burst := func(id, k int) {
+			for i := 0; i < k; i++ {
+				ev = append(ev, fmt.Sprintf("s%d", id))
+			}
+		}
+		if rng.Intn(5) < 3 {
+			burst(a, 1)
+		} else {
+			burst(a, 1+rng.Intn(4))
+		}
+		if rng.Intn(5) > 0 {
+			ev = append(ev, "e")
+		}
+		if rng.Intn(2) == 0 {
+			burst(b, 4)
+		} else {
+			burst(b, 1+rng.Intn(6))
+		}
+		if rng.Intn(6) == 0 {
+			ev = append(ev, "e")
+		}
+		if rng.Intn(2) == 0 {
+			burst(a, 4+rng.Intn(3))
+		} else {
+			burst(a, rng.Intn(8))
+		}
+		burst(b, 1+rng.Intn(3))
+		for i := 0; i < rng.Intn(6); i++ {
+			ev = append(ev, randEvent(rng, n))
+		}
 	case 0: // fully random
 		for i := 0; i < 10+rng.Intn(50); i++ {
 			ev = append(ev, randEvent(rng, n))
